@@ -1048,7 +1048,9 @@ fn columns<'a>(t: &'a [Vec<ExprId>; 10]) -> ColumnsTargets<'a> {
     }
 }
 
-/// The loop of `eval_folded_circuit`, written out, to observe the id of every constraint.
+/// The loop of `eval_folded_circuit`, written out, to observe the id of every constraint:
+/// constraints are compiled and folded in emission order (`ConstraintLayout`), both caches
+/// shared over the whole loop.
 fn direct_fold(
     b: &mut CircuitBuilder<EF>,
     sels: RowSelectorsTargets,
@@ -1056,19 +1058,19 @@ fn direct_fold(
     alpha: ExprId,
     base: &[SE],
     ext: &[SX],
+    em: &[(bool, usize)],
 ) -> (Vec<u32>, u32) {
     let compiler = SymbolicCompiler::new(sels, cols);
     let mut ids = vec![];
     let mut acc = b.define_const(EF::ZERO);
     let mut bc = hashbrown::HashMap::new();
-    for c in base {
-        let id = compiler.compile_base(c, b, &mut bc);
-        ids.push(id.0);
-        acc = b.mul_add(acc, alpha, id);
-    }
     let mut xc = hashbrown::HashMap::new();
-    for c in ext {
-        let id = compiler.compile_ext(c, b, &mut bc, &mut xc);
+    for (is_ext, k) in em {
+        let id = if *is_ext {
+            compiler.compile_ext(&ext[*k], b, &mut bc, &mut xc)
+        } else {
+            compiler.compile_base(&base[*k], b, &mut bc)
+        };
         ids.push(id.0);
         acc = b.mul_add(acc, alpha, id);
     }
@@ -1241,7 +1243,7 @@ fn run_case(
         let probe = a.public_input();
         (acc.0, probe.0)
     }));
-    let direct = catch_unwind(AssertUnwindSafe(|| direct_fold(&mut b2, sels, &columns(&tids), alpha, &base, &ext)));
+    let direct = catch_unwind(AssertUnwindSafe(|| direct_fold(&mut b2, sels, &columns(&tids), alpha, &base, &ext, &em)));
     let (acc, probe) = match (folded, direct) {
         (Ok((acc, probe)), Ok((ids, acc2))) => {
             let s = ids.iter().map(|x| x.to_string()).collect::<Vec<_>>().join(" ");
@@ -1495,8 +1497,8 @@ fn real_case(seed: u64, which: u64, id: &str, cases: &mut impl Write, implo: &mu
     }
 }
 
-/// The smallest AIR on which `eval_folded_circuit` and the native folder disagree: one
-/// extension constraint asserted before one base constraint.
+/// Regression case of finding F-C13-1 (repaired): one extension constraint asserted before one
+/// base constraint. Before the repair `eval_folded_circuit` and the native folder disagreed on it.
 fn witness_ext_before_base(cases: &mut impl Write, implo: &mut impl Write, rep: &mut Report) {
     let sa = ScriptAir {
         width: 1,
